@@ -2,7 +2,9 @@ package rules
 
 import (
 	"go/ast"
+	"go/parser"
 	"go/token"
+	"strconv"
 )
 
 // countConcurrency counts go statements, select statements, channel sends/receives.
@@ -22,4 +24,19 @@ func countConcurrency(n ast.Node) int {
 		return true
 	})
 	return c
+}
+
+// parserParseImports returns the import paths of a Go file.
+func parserParseImports(fset *token.FileSet, path string) ([]string, error) {
+	f, err := parser.ParseFile(fset, path, nil, parser.ImportsOnly)
+	if err != nil {
+		return nil, err
+	}
+	var res []string
+	for _, im := range f.Imports {
+		if p, err := strconv.Unquote(im.Path.Value); err == nil {
+			res = append(res, p)
+		}
+	}
+	return res, nil
 }
